@@ -49,11 +49,11 @@ PROP = dict(
             job("htlcswitch", "^TestVerifC07Race$", [_RACE], 200, shards=2),
         ],
         thorough=[
-            job("htlcswitch", "^TestVerifC07CircuitMap$", [_CM], 3000, shards=8, timeout=900,
+            job("htlcswitch", "^TestVerifC07CircuitMap$", [_CM], 4000, shards=8, timeout=900,
                 env=dict(VERIF_C07_STEPS=70)),
-            job("htlcswitch", "^TestVerifC07Switch$", [_SW], 1500, shards=6, timeout=900,
+            job("htlcswitch", "^TestVerifC07Switch$", [_SW], 2000, shards=6, timeout=900,
                 env=dict(VERIF_C07_SWSTEPS=60)),
-            job("htlcswitch", "^TestVerifC07Race$", [_RACE], 600, shards=4, timeout=900, race=True),
+            job("htlcswitch", "^TestVerifC07Race$", [_RACE], 800, shards=4, timeout=900, race=True),
         ],
     ),
 )
